@@ -137,7 +137,7 @@ def run_property(prop, tier, seed, only_kernel=None, verbose=True):
                         "unwind": j.unwind, "note": j.note})
         if verbose:
             out_lines.append("  %-44s %-8s %-9s %3d obligations, %d failed, %.1fs %s" % (
-                jn, j.kind, r.status, len(r.obligations), len(r.failed), r.time_s, r.reason[:200]))
+                jn, j.kind, r.status, len(r.obligations), len(r.failed), r.time_s, " ".join(r.reason.split())[:160]))
         for w in r.warnings:
             if "ignoring" in w:
                 machinery.append("%s: verifier dropped a quantifier: %s" % (jn, w))
@@ -260,8 +260,13 @@ def run_property(prop, tier, seed, only_kernel=None, verbose=True):
     if violations:
         return 1
     if machinery:
+        seen = set()
         for mm in machinery:
-            print("UNDECIDED(machinery): " + mm)
+            key = mm.split(":", 1)[-1][:200]
+            if key in seen:
+                continue
+            seen.add(key)
+            print("UNDECIDED(machinery): " + " ".join(mm.split())[:600])
         return 2
     if not results:
         print("UNDECIDED(machinery): no job ran for %s" % prop)
